@@ -519,7 +519,7 @@ class FaultsWorld:
     props = ('C05',)
     levels = {'C05': 'fault_enumeration'}
     chunk = 150
-    budget = {'quick': dict(runs=6000, wall=45.0), 'thorough': dict(runs=200000, wall=900.0)}
+    budget = {'quick': dict(runs=6000, wall=180.0), 'thorough': dict(runs=200000, wall=900.0)}
     time_unit = 'n/a: logical steps only'
     state_measure = 'distinct (fault kind, open-context stack at the fault, first differing probe step or "agree") tuples'
     components = {
